@@ -407,8 +407,7 @@ fn adc_mul_limbs(lhs: &[Limb], rhs: &[Limb], out: &mut [Limb]) -> Limb {
             j += 1;
         }
 
-        carry = carry.wrapping_add(carry2);
-        (out[i + j], carry) = out[i + j].adc(Limb::ZERO, carry);
+        (out[i + j], carry) = out[i + j].adc(carry2, carry);
         i += 1;
     }
 
